@@ -127,9 +127,11 @@ NSrc(n) ==
 
 -----------------------------------------------------------------------------
 (* whitespace-control carry *)
-FirstLeft(n) == n.wc[1]
+\* (a text neighbour - only in derived programs - trims nothing)
+FirstLeft(n) == IF n.k = "text" THEN "+" ELSE n.wc[1]
 LastRight(n) ==
-  CASE n.k \in {"capture", "if", "unless", "case", "for", "with", "macro"} -> n.ewc[2]
+  CASE n.k = "text" -> "+"
+    [] n.k \in {"capture", "if", "unless", "case", "for", "with", "macro"} -> n.ewc[2]
     [] n.k = "raw" -> n.wc[4]
     [] OTHER -> n.wc[2]
 
